@@ -271,7 +271,7 @@ func Replay(t TB, name string, f func()) {
 		f()
 	}()
 	memAfter := sampleMem()
-	if outcome == "pass" && allocLabel != "" && memAfter.total-memBefore.total > allocLimit+(1<<20) {
+	if outcome == "pass" && allocLabel != "" && memAfter.total-memBefore.total > allocLimit {
 		outcome = "violated"
 		violatedLabel = allocLabel
 		detail = fmt.Sprintf("allocated %d bytes", memAfter.total-memBefore.total)
